@@ -3,6 +3,7 @@ CONSTANTS
   File <- QFile
   FDataSeq <- QData
   FOther <- QOther
+  FSplit <- QSplit
   Caps <- QCaps
 INVARIANTS TypeOK C13_Counter C15_PinExact C17_NoOverclaim
 PROPERTIES C12_GCSafe C13_Bounded C16_OthersIntact C16_NoOrphans
